@@ -57,8 +57,11 @@ pub fn strategy() -> BoxedStrategy<Case> {
         any::<bool>(),                                      // resumed reconnect between burn and tail
         any::<bool>(),                                      // start with a throw-away fresh session
         any::<u16>(),
+        (any::<bool>(), 0u8..5, 1u8..4),                    // in-flight operations at the top of the id range
     )
-        .prop_map(|(rm, kinds, nsub, nunsub, recs, off, wraps, tail, reconnect, prelude, which)| {
+        .prop_map(|(rm, kinds, nsub, nunsub, recs, off, wraps, tail, reconnect, prelude, which, high)| {
+            // keep room in the eight in-flight slots for the high-range operations
+            let (rm, nsub, nunsub) = if high.0 { (rm.min(3), nsub.min(1), nunsub.min(1)) } else { (rm, nsub, nunsub) };
             let mut steps: Vec<Step> = Vec::new();
             let mut allocs = 0i64;
             for i in 0..nsub {
@@ -86,8 +89,28 @@ pub fn strategy() -> BoxedStrategy<Case> {
             // message in flight); a completed QoS 1 frees one slot, refill it
             steps.push(Step::Publish(PubSpec::simple(1, 2, 1, 200)));
             steps.push(Step::Publish(PubSpec::simple(2, 2, 1, 201)));
-            let n = (65535i64 * wraps as i64 - allocs - 2 + off as i64).max(0) as u32;
-            steps.push(Step::Burn { n });
+            if high.0 {
+                // second family: leave SUBSCRIBE/UNSUBSCRIBE in flight at the very top of the identifier
+                // range (65533..65535, wrapping to 1..), then come around once more
+                let n1 = (65535i64 - allocs - 2 - high.1 as i64).max(0) as u32;
+                steps.push(Step::Burn { n: n1 });
+                for i in 0..high.2 {
+                    if i % 2 == 0 {
+                        steps.push(Step::Subscribe {
+                            filters: vec![(TopicSpec::new(3, 80 + i), SubOpts { qos: 0, no_local: false, rap: false, retain_handling: 0 })],
+                            props: vec![],
+                            cancel: None,
+                        });
+                    } else {
+                        steps.push(Step::Unsubscribe { filters: vec![TopicSpec::new(3, 90 + i)], props: vec![], cancel: None });
+                    }
+                }
+                let n2 = (65535i64 - high.2 as i64 - 3 + off as i64).max(0) as u32;
+                steps.push(Step::Burn { n: n2 });
+            } else {
+                let n = (65535i64 * wraps as i64 - allocs - 2 + off as i64).max(0) as u32;
+                steps.push(Step::Burn { n });
+            }
             let mut conns = Vec::new();
             let connect = ConnectSpec {
                 props: ConnackProps { receive_max: Some(rm), ..ConnackProps::default() },
